@@ -2,7 +2,7 @@
 C15 — linkage, storage duration and symbol emission are correct in every configuration.
 
 Property theorems only (helper lemmas: Lemmas/Linkage{Lemmas,Parse,Scan,Tent,Emit,View,Exact,Ok,Uses,ScanTy,Closure,
-Data,Decls,Final,ObjSym,FnSym,Sym}.lean).
+Data,Decls,Final,ObjSym,FnSym,Sym,Nodup}.lean).
 
 Model: Model/Linkage.lean (parse.c `function`/`global_variable`/`primary`/`mark_live`/`scan_globals`,
 codegen.c `emit_data`/`emit_text`), Gen/AddrFormsGen.lean (gen_addr's ND_VAR arm, regenerated from codegen.c).
@@ -23,6 +23,7 @@ import ChibiVerif.Lemmas.LinkageView
 import ChibiVerif.Lemmas.LinkageScanTy
 import ChibiVerif.Lemmas.LinkageOk
 import ChibiVerif.Lemmas.LinkageSym
+import ChibiVerif.Lemmas.LinkageNodup
 
 namespace ChibiVerif.Props.C15
 open ChibiVerif.Linkage
@@ -372,10 +373,13 @@ def C15_symbols_Statement : Prop :=
       (∀ e, e ∈ objectSymbols fcommon gs ↔ e ∈ symbols fcommon ds)
 
 /-- the decidable region in which `C15_symbols_Statement` is claimed: a valid unit outside the four
-    known-finding regions of the symbol table.  (`flagsFrozenDefRegion` is `flagsFrozenRegion` restricted to
-    functions the unit defines: the class of a function that is only declared never reaches the table.) -/
+    known-finding regions of the symbol table.  Two of them are narrower than the regions the findings were
+    first recorded with: `flagsFrozenDefRegion` is `flagsFrozenRegion` restricted to functions the unit defines
+    (the class of a function that is only declared never reaches the table); `deadStaticLocalVisibleRegion` is
+    `deadStaticLocalRegion` restricted to initializers that name something which nothing emitted refers to and
+    the unit does not define - exactly the units on which the always-emitted datum changes the table. -/
 def InScope (ds : List Decl) : Bool :=
-  valid ds && !flagsFrozenDefRegion ds && !deadStaticLocalRegion ds && !compositeSizeRegion ds &&
+  valid ds && !flagsFrozenDefRegion ds && !deadStaticLocalVisibleRegion ds && !compositeSizeRegion ds &&
   !externInitAfterStaticRegion ds
 
 /-- **C15_accepts.**  `parse` accepts every unit that is `valid` and declares its identifiers before use
@@ -447,5 +451,30 @@ example : (symbols true mixedUnit).map (fun e => (e.sym, e.binding, e.kind, e.si
      (.named 5, .global, .undef, none), (.named 4, .global, .text, none),
      (.named 7, .global, .common, some 20), (.named 9, .global, .undef, none), (.named 6, .global, .data, some 8),
      (.named 8, .local, .tbss, some 4), (.named 10, .global, .undef, none)] := by decide
+
+/-- **C15_symbols with multiplicities (full statement).**  The symbol table of the output is a permutation of
+    `Spec.symbols`: the same entries, each exactly once.  False where `C15_symbols_Statement` is false (it implies it). -/
+def C15_symbols_exact_Statement : Prop :=
+  ∀ (fcommon : Bool) (ds : List Decl), valid ds = true →
+    ∃ gs, parseUnit ds = .ok gs ∧ (objectSymbols fcommon gs).Perm (symbols fcommon ds)
+
+/-- **C15_symbols with multiplicities (partial).**  In the scope of `C15_symbols_partial` the symbol table of the
+    output is a *permutation* of `Spec.symbols`: no label is defined twice (the assembler would reject the file) or
+    both defined and referenced as undefined, and no entry of the Spec is produced twice.  Beyond
+    `C15_symbols_partial` this uses: the labels `.L..k` are handed out once each; at most one declaration of an object
+    has an initializer, so `scan_globals` leaves at most one definition per name (`C15_tentative`); function objects
+    have distinct names; functions, objects and block-scope externs use different identifiers.
+    Missing for the full statement: the same regions and side condition as for `C15_symbols_partial`. -/
+theorem C15_symbols_exact_partial : ∀ (fcommon : Bool) (ds : List Decl), InScope ds = true → symbolsSide ds = true →
+    ∃ gs, parseUnit ds = .ok gs ∧ (objectSymbols fcommon gs).Perm (symbols fcommon ds) := by
+  intro fcommon ds hin hside
+  simp only [InScope, Bool.and_eq_true, Bool.not_eq_true'] at hin
+  obtain ⟨⟨⟨⟨hv, hf⟩, hd⟩, hc⟩, he⟩ := hin
+  exact symbols_perm_lemma fcommon hv hf hd hc he hside
+
+/-- non-vacuity: see the examples after `C15_symbols_partial` (same hypotheses); the two tables of `mixedUnit`
+    have ten entries each -/
+example : holdsOn (parseUnit mixedUnit) (fun gs => (objectSymbols true gs).length == 10) = true ∧
+    (symbols true mixedUnit).length = 10 := by decide
 
 end ChibiVerif.Props.C15
